@@ -126,8 +126,10 @@ func checkC02(c C02Case, st *stats.Collector) error {
 	}
 	strict := c.Stratum == "A" && len(d.Summary(specdec.OpChunkIndex)) > 0 && len(d.Summary(specdec.OpChannel)) > 0
 	fellBackOrFailed := 0
-	for _, v := range variants {
-		res := mc.ReadMessages(bytes.NewReader(file), true, false, 0, v.opts...)
+	for vi, v := range variants {
+		// how the iterator is driven rotates over the variants: a new Message per item, one reused
+		// Message (NextInto(msg)), or the deprecated Next(buf)
+		res := mc.ReadMessagesMode(bytes.NewReader(file), (vi+int(wl.Hash(c)%3))%3, true, false, 0, v.opts...)
 		if res.Panic != "" {
 			return pk.Failf("panic", "%s panicked: %s", v.name, res.Panic)
 		}
